@@ -202,6 +202,8 @@ def main():
     P = M.program()
     C.assumptions += M.NATIVE_NOTES
     C.assumptions += [
+        "POW lemmas (true facts about the exact power, assumed in the `**` obligations): exponents 0 and 1, bases 0, 1, -1, 2, -2 "
+        "in closed form, and |base| >= 2 with exponent >= 64 does not fit - so a fast path for those cases is decided, not trusted",
         "i64::checked_pow is modelled as an uninterpreted exact power POW(base, exponent) with a representability flag; "
         "the model is validated against the real binary on boundary inputs each run",
         "message construction (format!, format_type_error, Value::display) is opaque and side-effect free",
@@ -231,6 +233,7 @@ def main():
         native_profile = "debug" if profile == "dev" else "release"
         for kind in kinds:
             exc_c, free_c, rk, val = z3_spec_int(kind, a, b)
+            lemmas = stdmodels.pow_lemmas(a, b) if kind == "Exponent" else []
 
             def run(ctx, kind=kind, profile=profile):
                 return run_binop_step(P, ctx, profile, kind, M.v_int(Int(a)), M.v_int(Int(b)))
@@ -259,7 +262,7 @@ def main():
                     C.inconclusive.append(f"{name}: tainted path in a pure kernel ({r.notes[:2]})")
                     continue
                 if M.result_kind(res) == "Err":
-                    C.prove(name + ":exception-only-when-documented", r.pc, z3.Or(exc_c, free_c), site=site + "/spurious-exception",
+                    C.prove(name + ":exception-only-when-documented", list(r.pc) + lemmas, z3.Or(exc_c, free_c), site=site + "/spurious-exception",
                             what=f"{INT_OPS[kind]} raises an exception where a value is documented", replay=replay,
                             model_desc=model_ab)
                 elif M.result_kind(res) == "Ok":
@@ -270,7 +273,7 @@ def main():
                     else:
                         t = top_bool(r.value)
                         claim = False if t is None else z3.Or(free_c, z3.And(z3.Not(exc_c), (t.z() == 0) == val))
-                    C.prove(name + ":value", r.pc, claim, site=site + "/wrong-value",
+                    C.prove(name + ":value", list(r.pc) + lemmas, claim, site=site + "/wrong-value",
                             what=f"{INT_OPS[kind]} returns a value that differs from the documented arithmetic",
                             replay=replay, model_desc=model_ab)
                     if profile == "dev":
